@@ -112,7 +112,7 @@ _EDIT = st.tuples(_I(0, 2), _I(0, 4), _I(0, 9), _I(0, 200))
 _PERIOD = st.tuples(st.lists(_EDIT, max_size=3), _I(0, 5), _TMS, st.lists(st.tuples(_I(0, 29), _EDIT), max_size=2))
 _CASE = st.tuples(st.lists(_STATE, min_size=1, max_size=5), _I(0, 4), st.lists(st.tuples(_I(0, 3), st.booleans()), max_size=2),
                   st.lists(_PERIOD, min_size=1, max_size=3), _I(0, 2))
-DUR_POOL = [64, 1, 32, 96, 128, 2, 640, 16, 65, 63]
+DUR_POOL = [64, 1, 32, 96, 128, 2, 640, 16, 0, 63]  # includes a zero-length state
 STEP_POOL = [1, 1, 2, 8, 13, 32, 64, 65, 200, 4]
 VAR_DEFAULTS = [1.5, True, "txt", 7]
 VAR_EDITS = {float: [0.25, -3.0, 1.5], bool: [False, True, True], str: ["a", "", "txt2"], int: [1, 2.5, 3]}
